@@ -214,7 +214,9 @@ PredictCtorFrom(o) ==
     LET al == IF IsStd THEN 0 ELSE IF a[1] # 0 THEN a[1] ELSE IF SOCCC = 1 THEN xs.al + 50 ELSE xs.al
     IN  Build(o.op, d, s, a, <<>>, Vals(xs), ExactCap(d, sz), al)
   ELSE
-    LET al      == IF IsStd THEN 0 ELSE IF a[1] # 0 THEN a[1] ELSE xs.al
+    \* (for std::allocator / always-equal allocators the allocator-extended form delegates to the plain move constructor,
+    \* which adopts the source's allocator: equal by definition, but a different id)
+    LET al      == IF IsStd THEN 0 ELSE IF a[1] # 0 /\ ~AE THEN a[1] ELSE xs.al
         elemwise == a[1] # 0 /\ ~AllocEq(cfg, a[1], xs.al)
         steal   == ~elemwise /\ (IF ns <= nd THEN nd < xs.cap ELSE Heap(xs))
     IN
@@ -430,6 +432,9 @@ Init ==
   /\ everBig = FALSE
   /\ allocCount = 0
 
+ShapeOf(s0) ==
+  LET pr(x) == IF x.p THEN <<Len(x.e), x.cap, StN(x), x.al>> ELSE <<>> IN <<pr(s0.A), pr(s0.B), s0.blocks>>
+
 \* one explored transition: the predicted line must satisfy the contract; emit it as a stimulus
 Take(o, ln, extra) ==
   LET post   == StateOf(ln)
@@ -454,7 +459,10 @@ Next ==
     \* L2: every throw point of every modelled call.  The exceptional exits lead to states that are explored on.
     \E o \in Enabled :
       LET l0 == Exec(cfg, st, Req(o, 0)) IN
-      \E k \in 0..l0.nf :
+      \* the shape-level policy that generates the stimuli is exactly the fault-free projection of L2
+      /\ Assert(ShapeOf(Norm(StateOf(l0))) = ShapeOf(Norm(StateOf(Predict(o)))) /\ l0.out = Predict(o).out,
+                <<"policy and L2 disagree on the shape of the result", o>>)
+      /\ \E k \in 0..l0.nf :
         LET ln == IF k = 0 THEN l0 ELSE Exec(cfg, st, Req(o, k)) IN
         Take(o, ln, MemChecks(cfg, st, StateOf(ln), ln))
   ELSE
